@@ -1,6 +1,7 @@
 """C10 — map-matched positions lie on a real edge within the search radius
 (tracklib/algo/mapping.py mapOnNetwork / __mapOnNetwork / __distToNode / __projOnTrack, the construction path
-core/network.py addNode / addEdge + computeAbsCurv on the edge geometries, the spatial index through the model of C08).
+core/network.py addNode / addEdge + computeAbsCurv on the edge geometries, the spatial index through the model of C08;
+networks and tracks with altitudes through Model/MapMatchZ: every function above on ENUCoords(E, N, U), Track.length()).
 Two models are run on every case: the core (Model/MapMatch: candidate loop, flag state, inference column) on the real
 candidate lists in their real order with the real decoded indices, and the composed one (Model/MapMatchNet: network
 construction, index, search unit, candidates, front end) which is only told which edge the real decoder chose."""
@@ -17,7 +18,32 @@ def fsqrt(x):
 
 
 def edge_length(g):
+    """planimetric length of a geometry (the length the `abs_curv` column of tracklib measures)"""
     return sum(fsqrt((fr(g[i + 1][0]) - fr(g[i][0])) ** 2 + (fr(g[i + 1][1]) - fr(g[i][1])) ** 2) for i in range(len(g) - 1))
+
+
+def zof(p):
+    """altitude of a vertex / observation / node coordinate given as [x, y] or [x, y, z]"""
+    return float(p[2]) if len(p) > 2 else 0.0
+
+
+def xyt(p):
+    return (p[0], p[1])
+
+
+def flat_geom(g):
+    """planimetrically zero-length: all vertices share their (x, y)"""
+    return len({xyt(p) for p in g}) == 1
+
+
+def has_z(case):
+    """the case carries altitudes somewhere (edge vertices, node table, observations): it is run on Model/MapMatchZ"""
+    if any(len(p) > 2 for e in case["edges"] for p in e["g"]):
+        return True
+    if any(len(v) > 2 for v in (case.get("nodes") or {}).values()):
+        return True
+    tracks = case["tracks"] if case.get("kind") == "session" else [case["track"]]
+    return any(len(p) > 2 for t in tracks for p in t)
 
 
 class P(Prop):
@@ -44,20 +70,44 @@ class P(Prop):
         (M, "TV.C10.matched_on_built_network", "on a network built by addEdge from computeAbsCurv-made edges with distinct ids, a matched state names the number n of an edge handed over and lies on THAT geometry, with along-edge distances adding up to its length"),
         (M, "TV.C10.viterbi_inference", "with Viterbi.decode (C09: decode_succeeds, decoded_valid) over any cost tables sized like the candidate lists: no exception, hmm_inference[k] is one of STATES[k]"),
         (M, "TV.C10.near_edge_is_candidate", "with the index of C08 (neighborhood_complete): an edge with a point within d of the observation is a candidate whenever the unit computed by __mapOnNetwork is groundDistanceToUnits(d)"),
+        (M, "TV.C10.abs_curv_planimetric", "with altitudes: computeAbsCurv (ds = distance2DTo) on a 3D geometry is computeAbsCurv on its planimetric vertices; abs_curv[i] is the PLANIMETRIC length up to vertex i, whatever the altitudes"),
+        (M, "TV.C10.weight_is_3d_length", "the edge made by NetworkReader / the builders: computed abs_curv column, weight = Track.length() = the 3D length, which is >= the planimetric length the matched distances add up to, with equality on a level edge"),
+        (M, "TV.C10.states_flag_or_matched_3d", "with altitudes: STATES[i] is the flag state with the observation's own 3D position, or matched states: U = 0, on the planimetric geometry of an existing edge, d < radius, planimetric along-edge distances adding up to the planimetric edge length"),
+        (M, "TV.C10.altitudes_irrelevant", "forgetting the altitudes commutes with building the network (same numbers, abs_curv columns, spatial index, exceptions) and with preparing STATES (same candidates, points, distances, exceptions)"),
+        (M, "TV.C10.front_end_sound_3d", "mapOnNetwork on a network and tracks with altitudes: every processed track keeps its observations (3D positions), gets the three columns, every hmm_inference entry is one of STATES[k]: the flag state or matched as in states_flag_or_matched_3d"),
+        (M, "TV.C10.front_end_tracks_independent_3d", "with altitudes: the result of the j-th track is the result of matching it alone; a bare Track = collection of one; transition_cost / debug / verbose influence nothing; without exception every track is processed"),
+        (M, "TV.C10.matched_on_built_network_3d", "a network built by addEdge from LINESTRING(x y z)-made edges stores the n-th geometry under number n WITH its altitudes; a matched state lies on the planimetric vertices of THAT geometry, distances adding up to its planimetric length"),
+        (M, "TV.C10.near_edge_is_candidate_3d", "near_edge_is_candidate with altitudes: the index reads x, y only"),
+        (M, "TV.C10.returns_on_regular_geometries", "on edges with computed abs_curv columns whose geometries have no kept vertical segment and at least one kept segment, candidate lists of existing edge numbers and in-range decoded indices: __mapOnNetwork raises nothing"),
+        (M, "TV.C10.candidates_are_edge_numbers", "on a network built by addEdge calls with distinct ids the spatial index (constructor before or after the last edges) only answers numbers of existing edges: no KeyError / IndexError in the candidate loop"),
+        (M, "TV.C10.states_returned_on_built_network", "on a built network with regular geometries the preparation of STATES for a whole track returns unless the index query itself raises"),
+        (M, "TV.C10.states_returned_on_built_network_3d", "the same with altitudes (regularity of the planimetric geometries)"),
+        (M, "TV.C10.states_returned_3d", "the same for STATES[i] on data with altitudes: whether the projection can raise is decided by the planimetric geometry alone"),
     ]
     partial = []
     open_statements = ["completeness of the candidates in terms of the search radius (no edge within the radius is missed) is not claimed by the property and does not hold in general: "
                        "__mapOnNetwork derives the search unit from the NUMBERS of cells (ceil(search_radius / min(csize, lsize))), not from the cell size; near_edge_is_candidate states "
                        "the hypothesis under which C08's completeness carries over",
                        "the decoder's choice among the candidates (which sound candidate is inferred) is C09's subject; here only that the inferred state is one of STATES[k]",
-                       "exceptions are outside the theorems (every statement is about a call that returns): ZeroDivisionError of the projection on a vertical segment (finding D16, class "
-                       "vertical-segment-zerodiv), UnboundLocalError on a candidate edge all of whose vertices coincide (class zero-length-edge-unbound), AnalyticalFeatureError on a track "
-                       "without observation",
-                       "IEEE rounding: the theorems are over an ordered field with an exact square root; the float behaviour is sampled by the transfer check (tolerance 1e-9 relative)"]
+                       "exceptions: the soundness theorems are about a call that returns; returns_on_regular_geometries says when it does (no kept vertical segment, no edge without a kept "
+                       "segment, candidates = existing edge numbers, in-range decoder). Outside: ZeroDivisionError of the projection on a vertical segment (finding D16, class "
+                       "vertical-segment-zerodiv), UnboundLocalError on a candidate edge all of whose vertices coincide (class zero-length-edge-unbound) — both mirrored by the models and "
+                       "compared —, AnalyticalFeatureError on a track without observation; that the index of a built network only answers numbers of existing "
+                       "edges is proved here (candidates_are_edge_numbers); that the index QUERY itself does not raise (neighborhood on a built index) is C08's subject and stays a hypothesis "
+                       "of states_returned_on_built_network",
+                       "IEEE rounding: the theorems are over an ordered field with an exact square root; the float behaviour is sampled by the transfer check (tolerance 1e-9 relative)",
+                       "which length 'the edge length' is: the code measures planimetrically (abs_curv = sums of distance2DTo, assigned point with U = 0, __distToNode with distance2DTo): the "
+                       "theorems of Part IV state d0 + d1 = planimetric length of the stored geometry; Track.length() / Edge.weight is the 3D length (weight_is_3d_length) and differs on every "
+                       "edge that is not level. The oracle accepts either reading, consistently (sum AND abscissa planimetric, or sum AND abscissa 3D). Outside the statement, noted: the "
+                       "transition model (__tst_log -> Network.distanceBtwPts) subtracts the planimetric abscissa from the 3D Track.length() of the edge",
+                       "coordinates other than ENUCoords (GeoCoords / ECEFCoords networks: distance2DTo goes through a local ENU frame) are not modelled"]
     modelled = ("algo/mapping.py mapOnNetwork (bare track / collection / iterable, gps_noise, transition_cost, search_radius, debug, verbose), __mapOnNetwork (obs_noise column, search unit, "
                 "neighborhood call, candidate loop: projection on EDGES[getEdgeId(elem)].geom, d < search_radius, __distToNode from abs_curv; flag state; hmm_inference from the decoded "
                 "indices; created feature columns; positions untouched for mode 1), __distToNode, __projOnTrack; core/network.py Node, Edge, Network.addNode / addEdge (node table, EDGES, "
-                "__idx_edges, registration in an attached index), getEdgeId, getNumberOfEdges, __getitem__, bbox; algo/cinematics.py computeAbsCurv (ds + INTEGRATOR) on edge geometries; "
+                "__idx_edges, registration in an attached index), getEdgeId, getNumberOfEdges, __getitem__, bbox; algo/cinematics.py computeAbsCurv (ds + INTEGRATOR) on edge geometries; ON DATA WITH ALTITUDES (Model/MapMatchZ: the same "
+                "functions on ENUCoords(E, N, U)): ENUCoords.distance2DTo / distanceTo, algo/analytics.py ds, Track.length() (the edge weight of NetworkReader without weight column and of the "
+                "builders), Track.getX() / getY() + ENUCoords(xproj, yproj, 0) of __projOnTrack (C20's projOnTrack3), the flag state holding the observation's own position, the index reading "
+                "x, y only, io/network_reader.py wktLineStringToObs keeping the third number of LINESTRING(x y z, ...) (exercised through the reader, not translated); "
                 "core/spatial_index.py through Model/Grid (C08): constructor on the network, addFeature, neighborhood(coord, unit). Parameter of the model (taken from the real run): the "
                 "HMM-decoded states (given to the composed model as edge numbers, to the core model as indices); the core model is also run on the real candidate lists in their real order")
     rule = ("grid-like and random networks on an integer lattice and on two-decimal coordinates (oblique / horizontal / vertical, 2..4-vertex edges, arbitrary edge and node ids); REAL "
@@ -67,11 +117,14 @@ class P(Prop):
             "cell sizes and margins, tracks of 1..7 observations (a third of the real stream: 1..2) on / near / far from the network, exactly on nodes and vertices, outside the index "
             "extent, several radii and noise values; SESSION stream: on one network / index object, 1..3 calls of mapOnNetwork, the first on a TrackCollection of 2..3 tracks of different "
             "lengths that are not co-located, later calls on collections, plain lists or bare tracks, tracks matched again (their obs_noise / hmm_inference / hmm_cost columns already "
-            "exist), user features with those names, radius and noise changing between calls, transition_cost / debug / verbose / positional arguments, for 30 % of the sessions the module "
+            "exist), user features with those names, radius and noise changing between calls, transition_cost / debug / verbose / positional arguments, search_radius or gps_noise left to their defaults (50), integral arguments passed as ints, for 30 % of the sessions the module "
             "was used before on another (one-edge) network; the oracle is applied to every "
             "track of every call through its own hmm_inference column and measures on Edge.geom as read back from the network after the call; the network state after construction "
-            "(geometries, abs_curv columns, node table, edge ends, grid) and per track STATES (as sets, and in the real order), hmm_inference, feature names, obs_noise column and "
-            "positions are compared with the model's. non-trivial = at least one observation within the radius of an edge")
+            "(geometries with altitudes, abs_curv columns, edge weights (3D cases), node table with altitudes, edge ends, grid) and per track STATES (as sets, and in the real order), hmm_inference, feature names, obs_noise column and "
+            "positions (3D) are compared with the model's. ALTITUDES: 40 % of the cases of every stream (and the enumerated scope enum-z) "
+            "carry altitudes — hill (one altitude per planimetric position, lattice or two-decimal values 0..30), plateau (one non-zero altitude everywhere), mixed (some edges 2D: "
+            "LINESTRING(x y, ...) next to LINESTRING(x y z, ...) in one file), obs (2D network, observations with altitudes), node tables with altitudes, observations with altitudes half "
+            "of the time; such cases run on Model/MapMatchZ (commands net3 / match3), the others on the 2D models. non-trivial = at least one observation within the radius of an edge")
     trusted = ["the decoded states (HMM.estimate) are an input of the model, captured from the real call (class attribute wrapped for the duration of a case, no source hook); the candidate "
                "lists the decoder receives for each track are read through the HMM's own state function at the entry of HMM.estimate; the real candidate order (SpatialIndex.neighborhood "
                "returns list(set)) is captured by wrapping the instance attribute and fed to the core model, the composed model computes the candidates itself (compared as sets)"]
@@ -96,7 +149,9 @@ class P(Prop):
 
     # ------------------------------------------------------------------ generators
     def exhaustive_scopes(self, tier):
-        return ["one 2-vertex edge in each of the 8 lattice directions (and 3 lengths) x observations on a 7x7 lattice around it x radii {1, 2.5}"]
+        return ["one 2-vertex edge in each of the 8 lattice directions (and 3 lengths) x observations on a 7x7 lattice around it x radii {1, 2.5}",
+                "one 3-vertex edge WITH ALTITUDES (4 directions x 3 altitude profiles: hill, plateau, ramp) followed by a 2D edge x observations on a 9x9 "
+                "lattice around it (half of them with an altitude) x radii {1, 2.5}"]
 
     def cases(self, rng, tier):
         out = []
@@ -109,13 +164,26 @@ class P(Prop):
                                 "edges": [{"id": 7, "s": 1, "t": 2, "g": [[0.0, 0.0], [float(dx), float(dy)]]},
                                           {"id": 3, "s": 2, "t": 5, "g": [[float(dx), float(dy)], [float(dx) + 2.0, float(dy) + 1.0]]}],
                                 "res": [1.0, 1.0], "margin": 0.3, "track": pts[chunk:chunk + 7], "radius": radius, "noise": 2.0})
+        # enumerated, with altitudes: a 3-vertex edge over a hill / on a plateau / up a ramp, then an edge given in 2D
+        for (dx, dy) in [(1, 0), (0, 1), (1, 1), (2, -1)]:
+            for prof in [(0.0, 2.0, 0.0), (1.5, 1.5, 1.5), (0.0, 3.0, 5.0)]:
+                for radius in (1.0, 2.5):
+                    pts = [[float(x), float(y)] for x in range(-2, 7) for y in range(-2, 7)]
+                    for chunk in range(0, len(pts), 9):
+                        tr = pts[chunk:chunk + 9]
+                        if (chunk // 9) % 2:
+                            tr = [p + [3.0 + 0.5 * i] for i, p in enumerate(tr)]
+                        out.append({"kind": "single", "stream": "enum-z",
+                                    "edges": [{"id": 7, "s": 1, "t": 2, "g": [[0.0, 0.0, prof[0]], [2.0 * dx, 2.0 * dy, prof[1]], [4.0 * dx, 4.0 * dy, prof[2]]]},
+                                              {"id": 3, "s": 2, "t": 5, "g": [[4.0 * dx, 4.0 * dy], [4.0 * dx + 2.0, 4.0 * dy + 1.0]]}],
+                                    "res": [1.0, 1.0], "margin": 0.3, "track": tr, "radius": radius, "noise": 2.0})
         n = 15000 if tier == "thorough" else 3000
         for k in range(n):
-            out.append(self.random_case(rng, ["grid", "random", "decimal"][k % 3]))
+            out.append(self.add_z(rng, self.random_case(rng, ["grid", "random", "decimal"][k % 3])))
         # networks as real data delivers them (merged nodes, long / repeated / zero-length geometries, loops, parallel and
         # one-way edges, components), through every construction path
         for k in range(15000 if tier == "thorough" else 3000):
-            out.append(self.real_case(rng))
+            out.append(self.add_z(rng, self.real_case(rng)))
         for k in range(40 if tier == "thorough" else 6):
             c = self.random_case(rng, "grid")
             c["track"] = c["track"][:2] + [[c["track"][0][0] + 9000.0, c["track"][0][1] + 500.0], [c["track"][0][0] + 19000.0, c["track"][0][1]]]
@@ -123,8 +191,46 @@ class P(Prop):
             out.append(c)
         # sessions: collections of several tracks, several calls on the same objects, re-matched tracks
         for k in range(6000 if tier == "thorough" else 900):
-            out.append(self.random_session(rng, ["grid", "random", "decimal", "real"][k % 4]))
+            out.append(self.add_z(rng, self.random_session(rng, ["grid", "random", "decimal", "real"][k % 4])))
         return out
+
+    def add_z(self, rng, case, p=0.4):
+        """altitudes for a case generated planimetrically (a share `p` of the cases): networks as a 3D source delivers them
+        (`LINESTRING(x y z, ...)`, BD TOPO-like data, hand-built networks with `ENUCoords(x, y, z)`) and GPS tracks with altitudes.
+          hill    : every vertex has its own altitude (one per planimetric position, so that shared end vertices agree)
+          plateau : every vertex has the SAME non-zero altitude (flat, but not at 0)
+          mixed   : hill, but some edges stay 2D (a file that mixes `x y` and `x y z` lines; their altitude is 0), and some
+                    `x y z` lines have `x y` vertices
+          obs     : the network stays 2D, only the observations carry an altitude
+        the observations of the other modes carry an altitude half of the time; a node table (`via` = table) gets altitudes too
+        (its own: nodes are separate objects). Nothing planimetric is changed."""
+        if rng.random() >= p:
+            return case
+        mode = rng.choice(["hill", "hill", "hill", "plateau", "mixed", "obs"])
+        lattice = all(float(v) == round(float(v) * 4) / 4 for e in case["edges"] for q in e["g"] for v in q)
+        zval = (lambda: rng.randint(0, 24) / 2.0) if lattice else (lambda: round(rng.uniform(0.0, 30.0), 2))
+        plateau = rng.choice([0.5, 3.0, 12.25, 250.0])
+        zmap = {}
+        if mode != "obs":
+            edges = []
+            for e in case["edges"]:
+                if mode == "mixed" and rng.random() < 0.4:
+                    edges.append(e)
+                    continue
+                g = [[q[0], q[1], plateau if mode == "plateau" else zmap.setdefault(xyt(q), zval())] for q in e["g"]]
+                if mode == "mixed" and rng.random() < 0.3:
+                    g = [q[:2] if rng.random() < 0.3 else q for q in g]           # `x y` vertices inside an `x y z` line
+                edges.append(dict(e, g=g))
+            case = dict(case, edges=edges)
+            if case.get("nodes"):
+                case["nodes"] = {k: [v[0], v[1], plateau if mode == "plateau" else zmap.get(xyt(v), zval())] for k, v in case["nodes"].items()}
+        if mode == "obs" or rng.random() < 0.5:
+            oz = (lambda: plateau) if rng.random() < 0.3 else zval
+            if case["kind"] == "session":
+                case = dict(case, tracks=[[[q[0], q[1], oz()] for q in t] for t in case["tracks"]])
+            else:
+                case = dict(case, track=[[q[0], q[1], oz()] for q in case["track"]])
+        return case
 
     def coord(self, rng, stream):
         if stream == "decimal":
@@ -379,6 +485,14 @@ class P(Prop):
                 c["tc"] = rng.choice([5, 10])
             elif r < 0.50 and not c["bare"]:
                 c["form"] = "list"
+            elif r < 0.56:
+                c["defaults"] = "radius"              # search_radius left to its default (50, an int)
+                c["radius"] = 50.0
+            elif r < 0.60:
+                c["defaults"] = "noise"               # gps_noise left to its default (50)
+                c["noise"] = 50.0
+            elif r < 0.66:
+                c["ints"] = True                      # integral arguments passed as Python ints
         pre = {}
         for k in range(ntr):
             if rng.random() < 0.25:
@@ -417,20 +531,23 @@ class P(Prop):
             for nid, p in ((e["s"], e["g"][0]), (e["t"], e["g"][-1])):
                 q = (case.get("nodes") or {}).get(str(nid)) if case.get("via") == "table" else None
                 q = ends.setdefault(nid, q or p)
-                gap = gap or list(q) != list(p)
+                gap = gap or list(q)[:2] != list(p)[:2]
         pairs = [frozenset((e["s"], e["t"])) for e in case["edges"]]
         shape = "".join(sorted(set(
             (["L"] if any(e["s"] == e["t"] for e in case["edges"]) else []) +
             (["P"] if len(set(pairs)) < len(pairs) else []) +
             (["1"] if any(e.get("o", 0) != 0 for e in case["edges"]) else []) +
-            (["Z"] if any(len({tuple(p) for p in e["g"]}) == 1 for e in case["edges"]) else []) +
-            (["R"] if any(e["g"][i] == e["g"][i + 1] for e in case["edges"] for i in range(len(e["g"]) - 1)) else []) +
+            (["Z"] if any(flat_geom(e["g"]) for e in case["edges"]) else []) +
+            (["R"] if any(xyt(e["g"][i]) == xyt(e["g"][i + 1]) for e in case["edges"] for i in range(len(e["g"]) - 1)) else []) +
             (["M"] if max(len(e["g"]) for e in case["edges"]) >= 6 else []))))
+        zs = [[zof(p) for p in e["g"]] for e in case["edges"] if any(len(p) > 2 for p in e["g"])]
+        znet = "-" if not zs else ("plateau" if len({z for g in zs for z in g}) == 1 else "sloped") + ("+2D" if len(zs) < len(case["edges"]) else "")
         return {"kind": case["kind"], "stream": case.get("stream", "?"), "edges": len(case["edges"]),
+                "z_net": znet, "z_obs": any(len(p) > 2 for t in S["tracks"] for p in t),
                 "via": case.get("via", "direct") + ("+strids" if case.get("strids") else ""), "node_gap": gap, "shape": shape,
                 "warm": bool(case.get("warm")),
                 "args": "".join(sorted(set("".join(("t" if "tc" in c else "") + ("d" if c.get("debug") else "") + ("v" if c.get("verbose") else "") +
-                                                        ("p" if c.get("positional") else "") + ("l" if c.get("form") == "list" else "") for c in S["calls"])))),
+                                                        ("p" if c.get("positional") else "") + ("l" if c.get("form") == "list" else "") + ("D" if c.get("defaults") else "") + ("i" if c.get("ints") else "") for c in S["calls"])))),
                 "obs": sum(len(t) for t in S["tracks"]), "calls": len(S["calls"]),
                 "max_tracks_per_call": max(len(c["t"]) for c in S["calls"]), "rematch": rematch, "pre_features": bool(S.get("pre")),
                 "orient": "".join(sorted(orient)), "multi_vertex": any(len(e["g"]) > 2 for e in case["edges"])}
@@ -450,7 +567,7 @@ class P(Prop):
     # ------------------------------------------------------------------ implementation
     def edge_track(self, e):
         T = self.tl
-        tr = T["Track"]([T["Obs"](T["E"](x, y, 0), T["ObsTime"]()) for x, y in e["g"]])
+        tr = T["Track"]([T["Obs"](T["E"](p[0], p[1], zof(p)), T["ObsTime"]()) for p in e["g"]])
         T["curv"](tr)
         return tr
 
@@ -467,7 +584,7 @@ class P(Prop):
         tab = case.get("nodes") or {}
         def node(nid, pos):
             if case.get("via") == "table" and str(nid) in tab:
-                return T["Node"](conv(nid), T["E"](tab[str(nid)][0], tab[str(nid)][1], 0))
+                return T["Node"](conv(nid), T["E"](tab[str(nid)][0], tab[str(nid)][1], zof(tab[str(nid)])))
             return T["Node"](conv(nid), pos)
         net.addEdge(ed, node(e["s"], tr.getFirstObs().position), node(e["t"], tr.getLastObs().position))
 
@@ -488,7 +605,7 @@ class P(Prop):
                 with open(path, "w") as fh:
                     fh.write("edge;source;target;wkt;direction\n")
                     for e in case["edges"]:
-                        fh.write("%s;%s;%s;LINESTRING(%s);%d\n" % (e["id"], e["s"], e["t"], ", ".join("%r %r" % (float(x), float(y)) for x, y in e["g"]), e.get("o", 0)))
+                        fh.write("%s;%s;%s;LINESTRING(%s);%d\n" % (e["id"], e["s"], e["t"], ", ".join(" ".join("%r" % float(v) for v in q) for q in e["g"]), e.get("o", 0)))
                 net = T["NR"].readFromFile(path, fmt, verbose=False)
             net.spatial_index = T["SI"](net, **si_args)
         elif via == "late":
@@ -513,7 +630,7 @@ class P(Prop):
         out = []
         for k in range(net.getNumberOfEdges()):
             g = net.EDGES[net.getEdgeId(k)].geom
-            out.append([[float(o.position.getX()), float(o.position.getY())] for o in g])
+            out.append([[float(o.position.getX()), float(o.position.getY()), float(o.position.getZ())] for o in g])
         return out
 
     @staticmethod
@@ -530,15 +647,23 @@ class P(Prop):
                     raise
                 curv.append(None)
         si = net.spatial_index
-        return {"geoms": P.net_geoms(net), "curv": curv,
-                "nodes": [[str(i), float(net.NODES[i].coord.getX()), float(net.NODES[i].coord.getY())] for i in net.getIndexNodes()],
+        weights = []
+        for k in range(net.getNumberOfEdges()):
+            try:
+                weights.append(float(net.EDGES[net.getEdgeId(k)].weight))
+            except BaseException as e:
+                if isinstance(e, KeyboardInterrupt):
+                    raise
+                weights.append(None)
+        return {"geoms": P.net_geoms(net), "curv": curv, "weights": weights,
+                "nodes": [[str(i), float(net.NODES[i].coord.getX()), float(net.NODES[i].coord.getY()), float(net.NODES[i].coord.getZ())] for i in net.getIndexNodes()],
                 "ends": [[str(net.EDGES[net.getEdgeId(k)].source.id), str(net.EDGES[net.getEdgeId(k)].target.id)] for k in range(net.getNumberOfEdges())],
                 "grid": [float(si.xmin), float(si.xmax), float(si.ymin), float(si.ymax), int(si.csize), int(si.lsize)]}
 
     @staticmethod
     def state_row(s):
         try:
-            return [float(s[0].getX()), float(s[0].getY()), int(s[1]), float(s[2]), float(s[3])]
+            return [float(s[0].getX()), float(s[0].getY()), int(s[1]), float(s[2]), float(s[3]), float(s[0].getZ())]
         except Exception:
             return ["?", repr(s)[:80]]
 
@@ -570,7 +695,7 @@ class P(Prop):
         net0 = self.net_state(net)
         tracks = []
         for ti, pts in enumerate(S["tracks"]):
-            trk = T["Track"]([T["Obs"](T["E"](x, y, 0), T["ObsTime"].readUnixTime(1000 * (ti + 1) + 10 * i)) for i, (x, y) in enumerate(pts)])
+            trk = T["Track"]([T["Obs"](T["E"](q[0], q[1], zof(q)), T["ObsTime"].readUnixTime(1000 * (ti + 1) + 10 * i)) for i, q in enumerate(pts)])
             for name, val in sorted((S.get("pre") or {}).get(str(ti), {}).items()):
                 trk.createAnalyticalFeature(name, val)
             tracks.append(trk)
@@ -624,7 +749,12 @@ class P(Prop):
                     arg = list(objs)                      # `for track in tracks` accepts any iterable of tracks
                 else:
                     arg = self.tl["TC"](objs)
-                kw = dict(gps_noise=call["noise"], search_radius=call["radius"])
+                num = (lambda v: int(v) if call.get("ints") and float(v).is_integer() else v)
+                kw = dict(gps_noise=num(call["noise"]), search_radius=num(call["radius"]))
+                if call.get("defaults") == "radius" and call["radius"] == 50.0:
+                    del kw["search_radius"]
+                if call.get("defaults") == "noise" and call["noise"] == 50.0:
+                    del kw["gps_noise"]
                 if "tc" in call:
                     kw["transition_cost"] = call["tc"]
                 if call.get("verbose"):
@@ -711,7 +841,9 @@ class P(Prop):
         S = self.as_session(case)
         nm, em = self.idmaps(case)
         tab = (case.get("nodes") or {}) if case.get("via") == "table" else {}
-        pt = lambda p: "%s,%s" % (fbits(float(p[0])), fbits(float(p[1])))
+        z3 = has_z(case)          # altitudes somewhere: the 3D model (command net3), every point is x,y,z
+        pt2 = lambda p: "%s,%s" % (fbits(float(p[0])), fbits(float(p[1])))
+        pt = (lambda p: ",".join(fbits(float(v)) for v in p)) if z3 else pt2          # a vertex given as x,y in a 3D case: wktVertex
         es = []
         for e in case["edges"]:
             ca = tab.get(str(e["s"]), e["g"][0])
@@ -719,7 +851,7 @@ class P(Prop):
             es.append("%d:%d:%d:%d:%s:%s:%s" % (em[str(e["id"])], nm[str(e["s"])], nm[str(e["t"])], e.get("o", 0), pt(ca), pt(cb),
                                               ";".join(pt(p) for p in e["g"])))
         late = min(int(case.get("late", 1)), len(case["edges"]) - 1) if case.get("via") == "late" else 0
-        res = "none" if case["res"] is None else pt(case["res"])
+        res = "none" if case["res"] is None else pt2(case["res"])
         calls = []
         for ci, co in enumerate((out or {}).get("calls", [])):
             call = S["calls"][ci]
@@ -729,7 +861,7 @@ class P(Prop):
                 pts = S["tracks"][t["ti"]]
                 names = ",".join(b["features"]) or "_"
                 noise = ",".join(fbits(v) for v in b["noise"]) if b.get("noise") else "_"
-                if "err" in t or "inf" not in t or any(len(r) != 5 or r[0] == "?" for r in t["inf"]):
+                if "err" in t or "inf" not in t or any(len(r) != 6 or r[0] == "?" for r in t["inf"]):
                     ch = "x"
                 else:
                     ch = ",".join(str(r[2]) for r in t["inf"]) or "_"
@@ -738,26 +870,28 @@ class P(Prop):
                 continue
             one = bool(call.get("bare")) and len(call["t"]) == 1
             calls.append("%s:%s:%s:%s" % (fbits(call["radius"]), fbits(call["noise"]), "one" if one else "many", "/".join(ts)))
-        return "C10.net %s %d %s %s%s" % ("|".join(es), late, res, fbits(case["margin"]), "".join(" " + c for c in calls))
+        return "C10.%s %s %d %s %s%s" % ("net3" if z3 else "net", "|".join(es), late, res, fbits(case["margin"]), "".join(" " + c for c in calls))
 
     def requests(self, case):
         key = json.dumps(case, sort_keys=True)
         if key not in self._cache:
             self.impl(case)
         S = self.as_session(case)
-        es = "|".join(";".join("%s,%s" % (fbits(p[0]), fbits(p[1])) for p in e["g"]) for e in case["edges"])
+        z3 = has_z(case)
+        pt = (lambda p: ",".join(fbits(float(v)) for v in p)) if z3 else (lambda p: "%s,%s" % (fbits(p[0]), fbits(p[1])))
+        es = "|".join(";".join(pt(p) for p in e["g"]) for e in case["edges"])
         lines = [self.net_request(case, self._cache[key][1])]
         for ci, t in self._cache[key][0]:
             cand, idx = t["cand"], t.get("idx")
             n = len(cand)
             track = S["tracks"][t["ti"]][:n]
-            tr = ";".join("%s,%s" % (fbits(p[0]), fbits(p[1])) for p in track)
+            tr = ";".join(pt(p) for p in track)
             cs = ";".join("n" if c is None else ("_" if not c else ",".join(str(v) for v in c)) for c in cand)
             if idx is None or any(i < 0 for i in idx) or len(idx) != n:
                 ix = "x"
             else:
                 ix = ",".join(str(i) for i in idx)
-            lines.append("C10.match %s %s %s %s %s" % (fbits(S["calls"][ci]["radius"]), es, tr, cs, ix))
+            lines.append("C10.%s %s %s %s %s %s" % ("match3" if z3 else "match", fbits(S["calls"][ci]["radius"]), es, tr, cs, ix))
         return lines
 
     ERR = {"zerodiv": "err:zerodiv", "unbound": "err:UnboundLocalError", "index": "err:index"}
@@ -769,7 +903,7 @@ class P(Prop):
         rows = []
         for item in tok.split(";"):
             a = item.split(",")
-            rows.append([bitsf(a[0]), bitsf(a[1]), int(a[2]), bitsf(a[3]), bitsf(a[4])])
+            rows.append([bitsf(a[0]), bitsf(a[1]), int(a[2]), bitsf(a[3]), bitsf(a[4]), bitsf(a[5]) if len(a) > 5 else 0.0])
         return rows
 
     def decode_one(self, reply):
@@ -785,16 +919,21 @@ class P(Prop):
     NERR = {"Ezerodiv": "err:zerodiv", "Eunbound": "err:UnboundLocalError", "Eindex": "err:index", "Etype": "err:type", "Eexit": "err:exit",
             "Enoindex": "err:AttributeError", "Eempty": "err:AnalyticalFeatureError"}
 
-    def decode_net(self, reply):
+    def decode_net(self, reply, z3=False):
         r = reply.split(" ")
         if r[0].startswith("err:"):
             return {"err": r[0]}
         if r[0] != "ok":
             raise ValueError(reply[:200])
         fl = lambda tok: [bitsf(v) for v in tok.split(",")] if tok != "_" else []
-        geoms = [[fl(v) for v in g.split(";")] if g != "_" else [] for g in r[1].split("|")] if r[1] != "_" else []
+        p3 = lambda tok: (fl(tok) + [0.0])[:3]                 # the 2D commands answer x,y: altitude 0
+        geoms = [[p3(v) for v in g.split(";")] if g != "_" else [] for g in r[1].split("|")] if r[1] != "_" else []
         curvs = [fl(c) for c in r[2].split("|")] if r[2] != "_" else []
-        nodes = [[int(a.split(",")[0]), bitsf(a.split(",")[1]), bitsf(a.split(",")[2])] for a in r[3].split(";")] if r[3] != "_" else []
+        weights = None
+        if z3:
+            weights = fl(r[3])
+            r = r[:3] + r[4:]
+        nodes = [[int(a.split(",")[0])] + p3(",".join(a.split(",")[1:])) for a in r[3].split(";")] if r[3] != "_" else []
         ends = [[int(v) for v in a.split(",")] for a in r[4].split(";")] if r[4] != "_" else []
         g = r[5].split(",")
         grid = None if r[5] == "none" else [bitsf(g[0]), bitsf(g[1]), bitsf(g[2]), bitsf(g[3]), int(g[4]), int(g[5])]
@@ -809,12 +948,12 @@ class P(Prop):
                 ts.append({"states": [self.parse_states(x) for x in f[0].split("|")] if f[0] != "_" else [],
                            "inf": self.parse_states(f[1]) if f[1] != "_" else None,
                            "names": f[2].split(",") if f[2] != "_" else [], "noise": fl(f[3]),
-                           "pos": [fl(x) for x in f[4].split(";")] if f[4] != "_" else []})
+                           "pos": [p3(x) for x in f[4].split(";")] if f[4] != "_" else []})
             calls.append(ts)
-        return {"geoms": geoms, "curv": curvs, "nodes": nodes, "ends": ends, "grid": grid, "calls": calls}
+        return {"geoms": geoms, "curv": curvs, "weights": weights, "nodes": nodes, "ends": ends, "grid": grid, "calls": calls}
 
     def decode(self, case, replies):
-        return {"net": self.decode_net(replies[0]), "tracks": [self.decode_one(r) for r in replies[1:]]}
+        return {"net": self.decode_net(replies[0], has_z(case)), "tracks": [self.decode_one(r) for r in replies[1:]]}
 
     def compare_net(self, case, impl_out, m):
         """construction path, index and front end: `Model/MapMatchNet` against the real network / tracks"""
@@ -831,7 +970,9 @@ class P(Prop):
                 json.dumps(net["geoms"])[:300], json.dumps(m["geoms"])[:300])
         if not close(net["curv"], m["curv"], self.rel_tol):
             return "abs_curv columns of the edge geometries differ: impl=%s model=%s" % (json.dumps(net["curv"])[:300], json.dumps(m["curv"])[:300])
-        if [[nm.get(a[0], -1), a[1], a[2]] for a in net["nodes"]] != m["nodes"]:
+        if m.get("weights") is not None and not close(net["weights"], m["weights"], self.rel_tol):
+            return "edge weights (Track.length() of the geometry, 3D) differ: impl=%s model=%s" % (json.dumps(net["weights"])[:300], json.dumps(m["weights"])[:300])
+        if [[nm.get(a[0], -1), a[1], a[2], a[3]] for a in net["nodes"]] != m["nodes"]:
             return "node table differs: impl=%s model=%s" % (json.dumps(net["nodes"])[:300], json.dumps(m["nodes"])[:300])
         if [[nm.get(a, -1), nm.get(b, -1)] for a, b in net["ends"]] != m["ends"]:
             return "edge ends differ: impl=%s model=%s" % (net["ends"], m["ends"])
@@ -850,7 +991,12 @@ class P(Prop):
             for t, mt in zip(co["tracks"], mc):
                 where = "call %d, track %d (composed model): " % (ci, t["ti"])
                 if "err" in t or "err" in mt:
-                    if t.get("err") != mt.get("err") and t.get("err") in ("err:zerodiv", "err:UnboundLocalError", "err:index"):
+                    # which of two possible exceptions of the candidate loop comes first depends on the order of the candidates
+                    # (list(set) in Python, free): a vertical segment (zerodiv) and a zero-length edge (UnboundLocalError) among
+                    # the candidates of one observation may be met in either order; the core model, fed with the REAL order,
+                    # compares the exact exception (compare_track)
+                    both = {t.get("err"), mt.get("err")} == {"err:zerodiv", "err:UnboundLocalError"}
+                    if t.get("err") != mt.get("err") and t.get("err") in ("err:zerodiv", "err:UnboundLocalError", "err:index") and not both:
                         return where + "impl raised %s, model says %s" % (t.get("err"), mt.get("err", "no error"))
                     if "err" in mt and "err" not in t:
                         return where + "model raised %s, impl returned" % mt["err"]
@@ -874,7 +1020,7 @@ class P(Prop):
                     return where + "feature names: impl=%s model=%s" % (t["features"], mt["names"])
                 if t.get("noise_after") is not None and not close(t["noise_after"], mt["noise"], self.rel_tol):
                     return where + "obs_noise column: impl=%s model=%s" % (t["noise_after"], mt["noise"])
-                if [p[:2] for p in t["pos_after"]] != mt["pos"]:
+                if [p[:3] for p in t["pos_after"]] != mt["pos"]:
                     return where + "positions after the call: impl=%s model=%s" % (t["pos_after"][:4], mt["pos"][:4])
         return None
 
@@ -921,9 +1067,9 @@ class P(Prop):
     def check_state(self, case, k, row):
         """the property for one observation: flagged, or a point of an existing edge within the radius with
         along-edge distances to the two end nodes that add up to the edge length"""
-        if len(row) != 5 or row[0] == "?":
+        if len(row) != 6 or row[0] == "?":
             return "hmm_inference[%d] is not a state tuple: %s" % (k, row)
-        px, py, elem, d0, d1 = row
+        px, py, elem, d0, d1 = row[:5]
         q = case["track"][k]
         if elem == -1:
             if d0 == -1 and d1 == -1 and px == q[0] and py == q[1]:
@@ -950,22 +1096,39 @@ class P(Prop):
         dq = fsqrt((fr(q[0]) - fx) ** 2 + (fr(q[1]) - fy) ** 2)
         if dq > case["radius"] + tol:
             return "observation %d: assigned point (%r, %r) is %.6g away, search radius %s" % (k, px, py, dq, case["radius"])
-        L = edge_length(g)
-        ltol = TOL * max(1.0, L, sc)
-        if abs(d0 + d1 - L) > ltol:
-            return "observation %d: distances to the end nodes %r + %r != edge length %r" % (k, d0, d1, L)
-        # measured along the edge: consistent with one of the segments that carry the point
-        acc = 0.0
-        ok = False
-        for i, s in enumerate(segs):
-            if offs[i] <= F(tol) ** 2:
-                along = acc + fsqrt((fx - s[0]) ** 2 + (fy - s[1]) ** 2)
-                if abs(d0 - along) <= ltol:
-                    ok = True
-            acc += fsqrt((s[2] - s[0]) ** 2 + (s[3] - s[1]) ** 2)
-        if not ok:
-            return "observation %d: distance to the source node %r is not the along-edge abscissa of the assigned point" % (k, d0)
-        return None
+        # "distances to the edge's two end nodes measured along the edge that add up to the edge length". Map-matching is
+        # planimetric (the assigned point is a planimetric point of the geometry) and tracklib measures the edge planimetrically
+        # (abs_curv = sums of distance2DTo); on a geometry with altitudes the statement can also be read with the 3D length
+        # (Track.length(), the edge weight) and the 3D abscissa of the point of the 3D segment above the assigned point. The
+        # statement does not say which: either reading is accepted, but ONE of them must hold for the sum AND for the abscissa
+        # (a mixture — 3D up to a vertex, planimetric after it — measures nothing along the edge). On a geometry without
+        # altitude differences the two readings coincide.
+        Z = [zof(p) for p in g]
+        seg2 = [fsqrt((s[2] - s[0]) ** 2 + (s[3] - s[1]) ** 2) for s in segs]
+        seg3 = [math.sqrt(seg2[i] ** 2 + (Z[i + 1] - Z[i]) ** 2) for i in range(len(segs))]
+        L2, L3 = edge_length(g), math.fsum(seg3)
+        ltol = TOL * max(1.0, L2, L3, sc)
+        why = []
+        for name, L, seg in (("planimetric", L2, seg2), ("3D", L3, seg3)):
+            if abs(d0 + d1 - L) > ltol:
+                why.append("%r + %r != %s edge length %r" % (d0, d1, name, L))
+                continue
+            acc = 0.0
+            ok = False
+            for i, s in enumerate(segs):
+                if offs[i] <= F(tol) ** 2:
+                    h = fsqrt((fx - s[0]) ** 2 + (fy - s[1]) ** 2)
+                    if seg2[i] > 0:
+                        lo = hi = acc + (h if seg is seg2 else h / seg2[i] * seg[i])
+                    else:                       # a segment that is a point in the plane: any point of it is above (px, py)
+                        lo, hi = acc, acc + seg[i]
+                    if lo - ltol <= d0 <= hi + ltol:
+                        ok = True
+                acc += seg[i]
+            if ok:
+                return None
+            why.append("%r is not the %s along-edge abscissa of the assigned point" % (d0, name))
+        return "observation %d: distances to the end nodes of edge number %d: %s" % (k, elem, "; ".join(why))
 
     def spec_track(self, pc, out):
         """the property for one track of one call; pc = {"edges", "track", "radius"}"""
@@ -1039,7 +1202,7 @@ class P(Prop):
                     continue
                 g = case["edges"][elem]["g"]
                 for j in range(len(g) - 1):
-                    (x1, y1), (x2, y2) = g[j], g[j + 1]
+                    x1, y1, x2, y2 = g[j][0], g[j][1], g[j + 1][0], g[j + 1][1]
                     if x1 == x2 and y1 != y2 and q[0] == x1 and min(y1, y2) <= (y2 - y1) <= max(y1, y2):
                         return "vertical-segment-zerodiv"
             return None
@@ -1076,6 +1239,18 @@ class P(Prop):
             if len(t) > 1:
                 for k in range(len(t)):
                     yield dict(case, track=t[:k] + t[k + 1:])
+        if has_z(case):
+            flat = dict(case, edges=[dict(e, g=[q[:2] for q in e["g"]]) for e in es])
+            if case.get("nodes"):
+                flat["nodes"] = {k: v[:2] for k, v in case["nodes"].items()}
+            yield flat                                      # the network without altitudes
+            if case["kind"] == "session":
+                yield dict(case, tracks=[[q[:2] for q in t] for t in case["tracks"]])
+            else:
+                yield dict(case, track=[q[:2] for q in case["track"]])
+            for k, e in enumerate(es):
+                if any(len(q) > 2 for q in e["g"]):
+                    yield dict(case, edges=es[:k] + [dict(e, g=[q[:2] for q in e["g"]])] + es[k + 1:])
         if len(es) > 1:
             used = set()
             for k in range(len(es)):
@@ -1085,13 +1260,22 @@ class P(Prop):
                 for j in range(1, len(e["g"]) - 1):
                     yield dict(case, edges=es[:k] + [dict(e, g=e["g"][:j] + e["g"][j + 1:])] + es[k + 1:])
 
+    @staticmethod
+    def lift(case, rng):
+        """a neighbour with other altitudes: every vertex gets an altitude of its own (per planimetric position), the
+        observations keep theirs"""
+        zmap = {}
+        return dict(case, edges=[dict(e, g=[[q[0], q[1], zmap.setdefault(xyt(q), rng.randint(0, 24) / 2.0)] for q in e["g"]]) for e in case["edges"]])
+
     def mutate(self, case, rng):
         if case["kind"] == "session":
             for dx, dy in ((0.5, 0), (0, 0.5)):
-                yield dict(case, tracks=[[[p[0] + dx, p[1] + dy] for p in t] for t in case["tracks"]])
+                yield dict(case, tracks=[[[p[0] + dx, p[1] + dy] + p[2:] for p in t] for t in case["tracks"]])
+            yield self.lift(case, rng)
             return
         for dx, dy in ((0.5, 0), (0, 0.5), (-0.5, 0), (0, -0.5)):
-            yield dict(case, track=[[p[0] + dx, p[1] + dy] for p in case["track"]])
+            yield dict(case, track=[[p[0] + dx, p[1] + dy] + p[2:] for p in case["track"]])
+        yield self.lift(case, rng)
         for r in (0.5, 1.0, 2.0, 5.5):
             if r != case["radius"]:
                 yield dict(case, radius=r)
